@@ -3,7 +3,7 @@
    by Print Assumptions.  [hdr]/[parse] stand for encodeString(json(sourceFile)) and
    decodeString+unmarshalSourceFile; all that is assumed of them is [hdr_ok] for the entries
    at hand (decoder inverts encoder; no newline in an encoded header). *)
-From Trzsz Require Import Base.Bytes Gen.Consts Model.Archive Proofs.Archive.
+From Trzsz Require Import Base.Bytes Gen.Consts Model.Archive Proofs.Archive Model.ArchiveMode Proofs.ArchiveMode.
 From Coq Require Import ZArith Lia.
 
 (* the size announced for the stream is the number of bytes produced, when every file has
@@ -119,3 +119,64 @@ Proof.
   split; [reflexivity|]. split; [reflexivity|].
   split; [eexists; vm_compute; repeat split|]. split; reflexivity.
 Qed.
+
+(* ------------------------------------------------------------------------------------ *)
+(* WHO DECIDES "archive".  Three places look at a root after archiveSourceFiles: the NAME
+   record's flag (marshalSourceFile), the sender's own test before it opens the archive reader
+   (sendFileNameV3), and the receiver's createDirOrFile, which opens an archive writer, a
+   plain directory or a plain file according to the flag.  For EVERY scan list, overwrite
+   setting and protocol, and every root the grouping yields (no entries below it, exactly one,
+   many; several roots in one transfer): what the sender does next and what the receiver
+   expects next coincide.  Premise: a root that has entries below it is a directory (only
+   directories have children in a scan). *)
+Theorem C15_mode_agree : forall overwrite proto scan slots r,
+  amo_group overwrite proto scan = Some slots -> In (Some r) slots ->
+  (amo_subs r <> [] -> amo_isdir (amo_top r) = true) ->
+  amo_agree (amo_sender proto r) (amo_receiver (amo_name_of r)) = true.
+Proof. exact amo_agree_all. Qed.
+Print Assumptions C15_mode_agree.
+
+(* the same, on the plan that the correspondence run compares with the real functions *)
+Theorem C15_mode_plan_agree : forall overwrite proto scan steps n k s rk,
+  amo_plan overwrite proto scan = Some steps -> In (AmoStep n k s rk) steps ->
+  ((0 < k)%nat -> amn_isdir n = true) -> amo_agree s rk = true.
+Proof. exact amo_plan_agree. Qed.
+Print Assumptions C15_mode_plan_agree.
+
+(* a directory root from end to end, whatever the number of entries below it (none: only the
+   directory; one; many): both ends take the same branch, and the receiver ends with exactly
+   the root's tree for every segmentation of what the sender streams *)
+Theorem C15_mode_tree : forall hdr parse fixed overwrite proto scan slots r ws,
+  amo_group overwrite proto scan = Some slots -> In (Some r) slots ->
+  amo_isdir (amo_top r) = true ->
+  awf_tree (amo_entries r) -> Forall (fun e => aentry_ok e = true) (amo_entries r) ->
+  Forall (hdr_ok hdr parse) (amo_entries r) ->
+  (amo_subs r <> [] -> concat ws = astream hdr (amo_entries r)) ->
+  exists st, amo_root_xfer parse fixed proto r ws = Some (AwDone st) /\
+    forall p, afs_lookup (aw_fs (aw_close st)) p = aspec_tree (amo_entries r) p.
+Proof. exact amo_root_tree. Qed.
+Print Assumptions C15_mode_tree.
+
+(* the source literals the agreement rests on (regenerated on every run) *)
+Theorem C15_mode_consts :
+  Consts.archive_flag_gt = Consts.archive_send_gt /\
+  (Consts.archive_v3_protocol <= Consts.archive_min_protocol) /\
+  Consts.archive_writer_needs_dir = 1.
+Proof. exact archive_mode_consts_ok. Qed.
+Print Assumptions C15_mode_consts.
+
+(* non-vacuity: one transfer of three roots - a directory with exactly one file below it, an
+   empty directory, a plain file - at protocol 4 without overwrite *)
+Definition exm_scan := [
+  mkAmoSrc 0 [[114]] true 0 []; mkAmoSrc 0 [[114]; [102]] false 1 [120];
+  mkAmoSrc 1 [[101]] true 0 [];
+  mkAmoSrc 2 [[112]] false 2 [1; 2]].
+Example C15_mode_nonvacuous :
+  amo_plan false 4 exm_scan = Some [
+    AmoStep (mkAmoName 0 [[114]] true true 0) 1 AmoSArchive AmoRArchive;
+    AmoStep (mkAmoName 1 [[101]] true false 0) 0 AmoSNone AmoRNone;
+    AmoStep (mkAmoName 2 [[112]] false false 2) 0 AmoSFile AmoRFile] /\
+  amo_plan true 4 exm_scan = Some (map (fun s =>
+    AmoStep (mkAmoName (amo_id s) (amo_rel s) (amo_isdir s) false (amo_size s)) 0
+            (if amo_isdir s then AmoSNone else AmoSFile) (if amo_isdir s then AmoRNone else AmoRFile)) exm_scan).
+Proof. split; reflexivity. Qed.
